@@ -208,7 +208,8 @@ async fn populate(qs: &QueryServer, rng: &mut Rng, now: &mut u64) -> BTreeMap<St
     *now += 1;
     {
         let mut w = qs.write(t(*now)).await.expect("write");
-        for (g, gname) in [(UUID_IDM_ADMINS, "idm_admins"), (UUID_IDM_PEOPLE_ADMINS, "idm_people_admins"), (UUID_IDM_SERVICE_DESK, "idm_service_desk")] {
+        for (g, gname) in [(UUID_IDM_ADMINS, "idm_admins"), (UUID_IDM_PEOPLE_ADMINS, "idm_people_admins"), (UUID_IDM_SERVICE_DESK, "idm_service_desk"),
+                           (UUID_IDM_HIGH_PRIVILEGE, "idm_high_privilege"), (UUID_IDM_UNIX_AUTHENTICATION_READ, "idm_unix_authentication_read")] {
             if rng.chance(2, 3) {
                 let p = *rng.pick(&people);
                 w.internal_modify_uuid(g, &ModifyList::new_list(vec![Modify::Present(Attribute::Member, Value::Refer(uuid_e(p)))])).expect("builtin member add");
@@ -235,33 +236,95 @@ async fn populate(qs: &QueryServer, rng: &mut Rng, now: &mut u64) -> BTreeMap<St
     user
 }
 
+/// Attributes the migration deliberately never re-asserts on an existing entry (`internal_migrate_or_create`).
+const NOT_REASSERTED: &[&str] = &["member_create_once", "credential_type_minimum"];
+/// (entry, attribute) pairs that every history perturbs
+const ALWAYS: &[(Uuid, &str)] = &[(UUID_IDM_HIGH_PRIVILEGE, "member"), (UUID_SYSTEM_CONFIG, "badlist_password")];
+
+/// KUpgrade `RemoveSome`: at the previous level an administrator removes a PROPER NON-EMPTY subset of the values
+/// the target level's migration data specifies for a multi-valued attribute of a built-in entry.  `all`: every
+/// such (entry, attribute); otherwise the ALWAYS pairs plus a random half.  Each removal is its own write
+/// transaction; a removal the server refuses (schema) is counted and skipped.  What was really removed is read
+/// back from the entry (before - after).  Returns (removed: uuid -> attr -> values, candidates, refused).
+async fn remove_some(qs: &QueryServer, rng: &mut Rng, now: &mut u64, all: bool) -> (BTreeMap<String, BTreeMap<String, Vec<String>>>, u64, u64) {
+    let (lvl, templates) = kvs::migration_templates_target();
+    assert_eq!(lvl, DOMAIN_TGT_LEVEL, "inlib migration_templates_target is not the target level's data");
+    let mut removed: BTreeMap<String, BTreeMap<String, Vec<String>>> = BTreeMap::new();
+    let (mut cands, mut refused) = (0u64, 0u64);
+    for tpl in templates.iter() {
+        let Some(u) = tpl.get_uuid() else { continue };
+        let avas: Vec<(Attribute, Vec<PartialValue>)> = tpl.get_ava_iter().map(|(a, vs)| (a.clone(), vs.to_partialvalue_iter().collect())).collect();
+        for (a, pvs) in avas {
+            let an = a.to_string();
+            if pvs.len() < 2 || DERIVED.contains(&an.as_str()) || NOT_REASSERTED.contains(&an.as_str()) {
+                continue;
+            }
+            *now += 1;
+            let mut w = qs.write(t(*now)).await.expect("write");
+            let multi = w.get_schema().get_attributes().get(&a).map(|s| s.multivalue).unwrap_or(false);
+            let Ok(before) = w.internal_search_uuid(u) else { continue };
+            if !multi {
+                continue;
+            }
+            cands += 1;
+            let always = ALWAYS.iter().any(|(au, aa)| *au == u && *aa == an);
+            // the random draws are made for every candidate so that a replay takes the same decisions
+            let k = 1 + rng.below(pvs.len() as u64 - 1) as usize;
+            let mut idx: Vec<usize> = (0..pvs.len()).collect();
+            rng.shuffle(&mut idx);
+            let take = rng.chance(1, 2);
+            if !(all || always || take) {
+                continue;
+            }
+            let ml = ModifyList::new_list(idx[..k].iter().map(|i| Modify::Removed(a.clone(), pvs[*i].clone())).collect());
+            let bv = before.get_ava_set(&a).map(value_strings).unwrap_or_default();
+            if w.internal_modify_uuid(u, &ml).is_err() {
+                refused += 1;
+                continue;
+            }
+            let av = w.internal_search_uuid(u).ok().and_then(|e| e.get_ava_set(&a).map(value_strings)).unwrap_or_default();
+            if w.commit().is_err() {
+                refused += 1;
+                continue;
+            }
+            let gone: Vec<String> = bv.iter().filter(|v| !av.contains(v)).cloned().collect();
+            if !gone.is_empty() {
+                removed.entry(u.to_string()).or_default().insert(an, gone);
+            }
+        }
+    }
+    (removed, cands, refused)
+}
+
 pub fn run(o: &Opts) -> i32 {
     let out = o.str("out", "/verif/work/C48/obs.ndjson");
     let mut tr = Tracer::create(&out);
     let seed = o.seed();
     let nh = o.u64("histories", 4);
     // replay: the seeds of the histories to repeat
-    let seeds: Vec<u64> = match o.get("replay") {
-        Some(f) => read_ndjson(f).iter().filter(|l| l["a"] == "reset").filter_map(|l| l["hseed"].as_u64()).collect(),
-        None => (0..nh).map(|h| seed.wrapping_mul(9_000_011).wrapping_add(h)).collect(),
+    // (history seed, RemoveSome on every candidate?)
+    let seeds: Vec<(u64, bool)> = match o.get("replay") {
+        Some(f) => read_ndjson(f).iter().filter(|l| l["a"] == "reset").filter_map(|l| l["hseed"].as_u64().map(|s| (s, l["all"].as_bool().unwrap_or(false)))).collect(),
+        None => (0..nh).map(|h| (seed.wrapping_mul(9_000_011).wrapping_add(h), h == 0)).collect(),
     };
     let rt = runtime();
     rt.block_on(async {
         let def = extract_def().await;
         tr.emit(&json!({"a":"def","res":"ok","def":def}));
-        for (hi, hs) in seeds.iter().enumerate() {
+        for (hi, (hs, all)) in seeds.iter().enumerate() {
             let mut rng = Rng::new(*hs);
             let mut now = 10u64;
             let qs = sx::fresh_level(t(now), DOMAIN_PREVIOUS_TGT_LEVEL).await;
-            tr.emit(&json!({"a":"reset","h":hi,"hseed":hs,"res":"ok","level":DOMAIN_PREVIOUS_TGT_LEVEL}));
+            tr.emit(&json!({"a":"reset","h":hi,"hseed":hs,"all":all,"res":"ok","level":DOMAIN_PREVIOUS_TGT_LEVEL}));
             let user = populate(&qs, &mut rng, &mut now).await;
+            let (removed, cands, refused) = remove_some(&qs, &mut rng, &mut now, *all).await;
             let pre = dump(&qs).await;
             // only user-set attributes that are really stored before the upgrade are claimed
             let user_j: Map<String, J> = user.iter().map(|(u, attrs)| {
                 let have: Vec<&String> = attrs.iter().filter(|a| pre.get(u).map(|(_, m)| m.contains_key(*a)).unwrap_or(false)).collect();
                 (u.clone(), json!(have))
             }).collect();
-            tr.emit(&json!({"a":"pre","res":"ok","st":dump_json(&pre),"user":user_j}));
+            tr.emit(&json!({"a":"pre","res":"ok","st":dump_json(&pre),"user":user_j,"removed":removed,"candidates":cands,"refused":refused}));
             // the upgrade: the new server version starts on the existing database
             now += 60;
             let r = qs.initialise_helper(t(now), DOMAIN_TGT_LEVEL).await;
